@@ -4,7 +4,7 @@ VARIABLE l
 Lines == TLCGet(7)
 Init == TLCSet(7, ndJsonDeserialize(IOEnv.TRACE_FILE)) /\ l = 1
 Verdict(e) ==
-  CASE e.op = "affine" -> AllFailingT(AffineClauses(e))
+  CASE e.op = "affine" -> AllFailingT(AffineClauses(e)) \cup (IF e.typed_ok = 0 THEN {"TypedCallReturnsDeclaredKinds"} ELSE {})
     [] e.op = "affine_generic" ->
          {c \in {"InverseAfterForward", "ForwardAfterInverse", "RotationOrthonormalDetOne"} :
             CASE c = "InverseAfterForward" -> e.rtexp > -9
